@@ -373,7 +373,9 @@ impl<'a, F: Family> Cx<'a, F> {
                     inputs.clear();
                 }
                 if let Some(h) = hid {
-                    inputs.push(h);
+                    if F::H::TRACKED {
+                        inputs.push(h);
+                    }
                 }
                 let zin = zst_count::<F::E>(n) + if with_header && zst_h { 1 } else { 0 };
                 let r: Result<Handle<F>, _> = guarded(|| match op.code {
@@ -564,7 +566,9 @@ impl<'a, F: Family> Cx<'a, F> {
         let mut inputs = vec![];
         let header = F::H::fresh();
         if let Some(h) = hdr_id(&header) {
-            inputs.push(h);
+            if F::H::TRACKED {
+                inputs.push(h);
+            }
         }
         let zin = if F::H::ZST && F::H::TRACKED { 1 } else { 0 };
         let r = guarded(|| match op.c % 3 {
@@ -1123,7 +1127,7 @@ impl<'a, F: Family> Cx<'a, F> {
         if let Handle::ValP(p) = h {
             if F::P::ZST {
                 exp.zst_drops += 1;
-            } else {
+            } else if F::P::TRACKED {
                 exp.drops.push(p.raw());
             }
             let prev = set_drop_ctx(true);
